@@ -5,12 +5,16 @@ from .common import find_calls, one_call, call_outcomes, follow_value, compariso
 from . import paths as P
 
 EXPLANATION = (
-    "Decides structural necessary conditions of C18 from MIR: (R1) Store::new_impl runs run_migrations (all four, in order) "
-    "before a Store value exists and propagates its error; (R2) sibling agreement by abstract evaluation over an abstract records table: migration 004 and entry_put build the by-key "
-    "id with the same permutation (namespace,key,author) of the records id, RecordsByKeyRange::next_filtered inverts it, "
-    "migration 001 and entry_put write (namespace,author)->(timestamp,key) and keep the same head (ties included); every record "
-    "visited by a populate loop, deletion markers included, reaches the insert; (R4) each populate migration returns Skip when its target is non-empty and "
-    "run_migration commits only on Execute. NOT decided: equality of answers for arbitrary table contents."
+    'Decides structural necessary conditions of C18 from MIR: (R1) Store::new_impl runs run_migrations (all four, in order)'
+    ' before a Store value exists and propagates its error; (R2) sibling agreement by abstract evaluation over an abstract '
+    'records table: migration 004 and entry_put build the by-key id with the same permutation (namespace,key,author) of the'
+    ' records id, RecordsByKeyRange::next_filtered inverts it, migration 001 and entry_put write '
+    '(namespace,author)->(timestamp,key) and keep the same head (ties included); every record visited by a populate loop, '
+    'deletion markers included, reaches the insert; (R4) each populate migration returns Skip when its target is non-empty '
+    'and run_migration commits only on Execute. (R5) the file-format migration that runs on open for stores written by '
+    'iroh-docs 0.94..=0.98 (migrate_redb_v2_tuples::run), evaluated on an old file holding one row per table, carries the '
+    'records and both derived tables, and swaps the files only after the copy was committed. NOT decided: equality of '
+    'answers for arbitrary table contents.'
 )
 ASSUMPTIONS = ["redb transactions are atomic; an uncommitted WriteTransaction is rolled back on drop"]
 
@@ -325,7 +329,16 @@ def _chain_locals(body, op):
     return seen
 
 
+def r5(ctx):
+    """an older database *file format*: the copy into a fresh file carries the records and both derived tables (what heads and
+    key-ordered queries are answered from), and the files are swapped only after the copy was committed"""
+    from . import redbmig
+    redbmig.check(ctx, "C18.R5", only={"records-1", "latest-by-author-1", "records-by-key-1"}, extras=True)
+    ctx.floor("C18.R5", 1)
+
+
 def run(ctx):
     ctx.run_rule("C18.R1", r1)
     ctx.run_rule("C18.R2", r2)
     ctx.run_rule("C18.R4", r4)
+    ctx.run_rule("C18.R5", r5)
